@@ -63,8 +63,17 @@ def filters(prog, rep, tag):
     # Ignored returns do not touch storage: blocks that build ReceiveAction::Ignored are not reachable from the claim
     cl = b.calls_to("PduStorageRef::claim_receiving")
     ign = q.aggregates(b, "ReceiveAction", "Ignored")
-    ok = len(cl) == 1 and bool(ign) and not any(bi in b.reachable_strict(cl[0].bb) for bi, _, _ in ign)
-    rep.ob(P, "ignored-before-claim" + tag, ok, "every Ignored result is produced before any slot is claimed", loc=b.span)
+    # ... or, if a claim was made, only after it has been handed back (compare-exchange RxBusy -> Sent)
+    giveback = set()
+    for s_ in [s_ for s_ in slotfsm.transitions(prog)[0] if s_["kind"] == "cas" and s_["frm"] == "RxBusy" and s_["to"] == "Sent"]:
+        for cc in b.calls():
+            tt = prog.by_path.get(cc.res) or prog.by_path.get(cc.decl)
+            if tt is not None and tt.root == s_["body"].root:
+                giveback.add(cc.bb)
+    ok_edge = slotfsm.claim_ok_edge(b, cl[0]) if len(cl) == 1 else None
+    held = b.reachable_from(ok_edge[1], avoid=giveback) if ok_edge else set()
+    ok = len(cl) == 1 and bool(ign) and ok_edge is not None and not any(bi in held for bi, _, _ in ign)
+    rep.ob(P, "ignored-before-claim" + tag, ok, "every Ignored result is produced without a slot being held: before any claim, where the claim failed, or after the claim was handed back", loc=b.span)
 
 
 def claim(prog, rep, tag):
